@@ -101,7 +101,7 @@ inductive FieldShape
   | virtAlias (fref : Nat)
   /-- virtual, any other expression -/
   | virtOther
-  deriving Repr
+  deriving DecidableEq, Repr
 
 structure FieldDecl where
   scope : Path
@@ -327,12 +327,12 @@ def resolveRefs (T : Table) : List Ref → List Err → List (Option Path) × Li
 inductive ObjKind
   | module | type | value | param
   | field (shape : FieldShape)
-  deriving Repr
+  deriving DecidableEq, Repr
 
 structure Obj where
   canon : Path
   kind : ObjKind
-  deriving Repr
+  deriving DecidableEq, Repr
 
 /-- The definitions `ir_util.find_object` can return.  (The Python searches a type's
 parameters, then its fields / enum values, then its subtypes, and returns the first match; the
@@ -367,11 +367,14 @@ inductive FRes
   | err (e : Err)
   /-- the recursive call could not resolve the aliased reference: silent `return` -/
   | bail
-  /-- member access on something that is not a field (parameter, module): the Python
-  raises AttributeError in `previous_field.read_transform` -/
+  /-- internal inconsistency the Python would answer with an exception (`find_object` assertion
+  on the target of an alias, a type reference without canonical name, an empty path).  Member
+  access on something that is not a field (parameter, module) used to end here
+  (AttributeError in `previous_field.read_transform`); since fix 8da3027 it is a
+  `noncomposite` error. -/
   | crash
   | fuel
-  deriving Repr
+  deriving DecidableEq, Repr
 
 structure FEnv where
   objs : List Obj
@@ -402,7 +405,9 @@ def physical (E : FEnv) : Nat → Obj → PathElem → FRes ⊕ Obj
       | _ => .inl .bail
     | .field .virtOther => .inl (.err (Err.noncomposite prev.name prev.rloc))
     | .field _ => .inr o
-    | _ => .inl .crash
+    -- `if not isinstance(previous_field, ir_data.Field)` (fix 8da3027): a runtime parameter, a
+    -- module, a type, an enum value has no members
+    | _ => .inl (.err (Err.noncomposite prev.name prev.rloc))
 
 /-- the `for ref in field_reference.path[1:]` loop -/
 def members (E : FEnv) : Nat → Obj → PathElem → List PathElem → List Path → FRes
@@ -435,7 +440,8 @@ def resolveFRef (E : FEnv) : Nat → Nat → FRes
       | [_] => .ok [h]
       | p0 :: rest =>
         match findObject E.objs h with
-        | none => .crash
+        -- `find_object_or_none` gave None, which is not a `Field` either
+        | none => .err (Err.noncomposite p0.name p0.rloc)
         | some o => members E fuel o p0 rest [h]
     | _, _ => .crash
 end
